@@ -130,10 +130,19 @@ func validatorPaths(fn *ssa.Function, sizes types.Sizes) (paths []vPath, minWidt
 			paths = append(paths, vPath{atoms: append([]Atom{}, atoms...), raw: append([]string{}, raw...), accept: isNilConst(res)})
 			return nil
 		case *ssa.If:
+			cond := t.Cond
+			neg := false
+			for {
+				u, ok := cond.(*ssa.UnOp)
+				if !ok || u.Op != token.NOT {
+					break
+				}
+				cond, neg = u.X, !neg
+			}
 			for i, s := range b.Succs {
-				taken := i == 0
+				taken := (i == 0) != neg
 				na, nr := atoms, raw
-				if bo, ok := t.Cond.(*ssa.BinOp); ok {
+				if bo, ok := cond.(*ssa.BinOp); ok {
 					l := termString(bo.X, sizes, &minWidth)
 					r := termString(bo.Y, sizes, &minWidth)
 					if a, ok := normAtom(bo.Op, l, r, taken); ok {
@@ -326,6 +335,10 @@ func ruleSeqLookup(p *Program, r *Result, f *ssa.Function) {
 					found = true
 				}
 				if a.Op == "==" && strings.HasSuffix(a.L, " % const:2)") && a.R == "const:1" {
+					found = true
+				}
+				// the same test written with a mask
+				if strings.Contains(a.L, "param:") && strings.HasSuffix(a.L, " & const:1)") && ((a.Op == "==" && a.R == "const:1") || (a.Op == "!=" && a.R == "const:0")) {
 					found = true
 				}
 			}
